@@ -21,6 +21,7 @@ use sos_core::{
 use std::panic::{catch_unwind, AssertUnwindSafe};
 mod folderops;
 mod integrityops;
+mod kdf;
 mod logops;
 mod mergeops;
 mod reducer;
@@ -315,6 +316,7 @@ fn main() {
         "folder-ops" => { rt().block_on(folderops::run(cases, seed)); }
         "repro-db-shared-secret-id" => { rt().block_on(folderops::repro_db_shared_secret_id()); }
         "integrity-ops" => { rt().block_on(integrityops::run(cases, seed)); }
+        "kdf" => { kdf::run(cases); }
         "plaintext-scan" => { rt().block_on(folderops::run_scan(cases, seed)); }
         "log-ops" => { rt().block_on(logops::run(cases, seed)); }
         "merge-patches" => { rt().block_on(mergeops::run(cases, seed)); }
